@@ -431,18 +431,31 @@ def run_harness(hbin, comp, seed, n, tier, workdir, tag, targeted=False, replay=
         if targeted:
             cmd += ["-targeted"]
         p = subprocess.Popen(cmd, stdout=subprocess.PIPE, stderr=subprocess.STDOUT, text=True, env=env, cwd=workdir)
-        procs.append((p, trace, rep))
+        procs.append((p, trace, rep, cmd))
     lines = []
     merged = {"histories": 0, "ops": 0, "invalid": [], "mons": [], "classes": {}, "distinct_nontrivial": 0,
               "stats": {}, "samples": [], "mon_samples": [], "errors": []}
-    for p, trace, rep in procs:
+    for p, trace, rep, cmd in procs:
         try:
             out, _ = p.communicate(timeout=3600)
         except subprocess.TimeoutExpired:
             p.kill()
             out = "timeout"
-        if p.returncode != 0:
-            merged["errors"].append("harness %s exited %s: %s" % (comp, p.returncode, (out or "")[-2000:]))
+        rc = p.returncode
+        # a harness process that dies (listen/dial failures when the machine is short of ports or descriptors) says nothing
+        # about the property: the same shard is run again, alone, after a pause; a crash caused by the code under test repeats
+        for pause in (5, 20):
+            if rc == 0:
+                break
+            log("harness %s shard failed (exit %s), retrying in %ds: %s" % (comp, rc, pause, (out or "")[-300:].replace("\n", " | ")))
+            time.sleep(pause)
+            try:
+                q = subprocess.run(cmd, stdout=subprocess.PIPE, stderr=subprocess.STDOUT, text=True, env=env, cwd=workdir, timeout=3600)
+                rc, out = q.returncode, q.stdout
+            except subprocess.TimeoutExpired:
+                rc, out = -9, "timeout"
+        if rc != 0:
+            merged["errors"].append("harness %s exited %s: %s" % (comp, rc, (out or "")[-2000:]))
             continue
         r = json.load(open(rep))
         lines += [l for l in open(trace).read().split("\n") if l.strip()]
